@@ -253,6 +253,25 @@ def streams(rng, tier):
     e = Stream("arbitrary-bytes", "hcore", arb, judge=judge_bytes, rule="at most one token per input byte, then end; position = length")
     e.shrinkable = False
     yield e
+    # F16 tokens built by hand around values no half float has: the token is written as ONE half-precision item (f9 + the nearest-even half of the
+    # value, the model's bytes), whatever the value; and re-reading those bytes gives an F16 token again
+    hops = []
+    for b in [0x3dcccccd, 0x3f801001, 0x3f801000, 0x3f800fff, 0x40490fdb, 0x477fe001, 0x477ff000, 0x7f7fffff, 0x00000001, 0x33800001, 0x337fffff, 0x38800001, 0xbdcccccd, 0x4b800001]:
+        hops.append("tokenc f16:x%08x" % b); hops.append("tokenc array:2,f16:x%08x,u8:1" % b)
+    for _ in range(400 if q else 20000):
+        hops.append("tokenc f16:x%08x" % rng.getrandbits(32))
+    def judge_f16(op, impl, model, spec):
+        if impl in ("panic", "bad-op") or impl.startswith("crash") or impl.startswith("err"):
+            return "violation"
+        hx = impl.split(" ")[0]
+        body = hx[2:] if op.startswith("tokenc array") else hx
+        if not body.startswith("f9") or len(body) < 6:
+            return "violation"                  # an F16 token written as something other than a half-precision item
+        return "ok" if impl == model else "corr"
+    f = Stream("f16-tokens-built-by-hand", "hcore", hops, judge=judge_f16,
+               rule="tokenc f16:<any f32 value>: one half-precision item (initial byte f9) holding the nearest-even half of the value: the model's bytes")
+    f.shrinkable = False
+    yield f
 
 
 def replay_streams(rp):
